@@ -842,10 +842,27 @@ def slc8(ctx: Ctx) -> None:
         ctx.R.undecided("SLC-8", f"{len(loops)} loops over sys._current_frames() in unwrap_stackslice (1 expected)")
         return
     loop = loops[0]
-    res = {norm(a.targets[0]) for a in walk_scope(loop) if isinstance(a, ast.Assign) and len(a.targets) == 1 and isinstance(a.value, ast.Call) and norm(a.value.func) == "try_from"}
+    # the attempt for one thread: a call that is handed that thread's innermost frame (the value half of the loop target)
+    fvar = norm(loop.target.elts[1]) if isinstance(loop.target, ast.Tuple) and len(loop.target.elts) == 2 else None
+
+    def is_attempt(v: ast.AST) -> bool:
+        return isinstance(v, ast.Call) and (norm(v.func) == "try_from" or (fvar is not None and any(norm(a_) == fvar for a_ in v.args)))
+    res = {norm(a.targets[0]) for a in walk_scope(loop) if isinstance(a, ast.Assign) and len(a.targets) == 1 and is_attempt(a.value)} \
+        | {norm(a.target) for a in walk_scope(loop) if isinstance(a, ast.NamedExpr) and is_attempt(a.value)}
+    inlined = False
     if not res:
-        ctx.R.undecided("SLC-8", "no `x = try_from(...)` inside the thread search loop")
+        # the attempt was inlined by the normaliser (a new helper): whatever list the loop body builds from that thread's frame
+        res = {n_.id for a in walk_scope(loop) if isinstance(a, (ast.Assign, ast.AnnAssign)) for n_ in ast.walk(a.targets[0] if isinstance(a, ast.Assign) else a.target)
+               if isinstance(n_, ast.Name) and isinstance(n_.ctx, ast.Store)} - {n_.id for n_ in ast.walk(loop.target) if isinstance(n_, ast.Name)}
+        inlined = True
+    if not res or (inlined and fvar is not None and not any(isinstance(n_, ast.Name) and n_.id == fvar and isinstance(n_.ctx, ast.Load) for n_ in walk_scope(loop))):
+        ctx.R.undecided("SLC-8", "no `x = try_from(<that thread's frame>)` inside the thread search loop")
         return
+    me = {"get_ident"} | {norm(a.targets[0]) for a in walk_scope(fn) if isinstance(a, ast.Assign) and len(a.targets) == 1 and "get_ident()" in norm(a.value)}
+
+    def about_me(g_: ast.AST) -> bool:
+        t_ = norm(g_)
+        return "get_ident" in t_ or any(isinstance(n_, ast.Name) and n_.id in me for n_ in ast.walk(g_))
     n = 0
     for b in walk_scope(loop):
         if not isinstance(b, (ast.Break, ast.Return)):
@@ -864,16 +881,16 @@ def slc8(ctx: Ctx) -> None:
                     found = True
         if found:
             ctx.R.ok("SLC-8", f"`{norm(b)}` at line {b.lineno} of the thread search", "only after try_from(...) returned frames")
-        elif any("get_ident" in norm(g_) for g_, _ in gs):
+        elif any(about_me(g_) for g_, _ in gs):
             ctx.R.fail("SLC-8", mod, b, "the search of other threads' stacks ends when it meets the calling thread's own entry: threads that come after it in sys._current_frames() are never tried, so an outer "
                        "frame running on one of them is reported as \"Couldn't find where the above frame is running\"", construct="thread search ends at the calling thread")
         else:
             ctx.R.undecided("SLC-8", f"the thread search loop is left at line {b.lineno} under conditions that do not test the result of try_from: {[norm(g_)[:40] for g_, _ in gs]}")
     # the attempt itself must not be restricted to a subset of the other threads
-    for a in walk_scope(loop):
-        if isinstance(a, ast.Assign) and isinstance(a.value, ast.Call) and norm(a.value.func) == "try_from":
+    for a in ([] if inlined else list(walk_scope(loop))):
+        if (isinstance(a, ast.Assign) and is_attempt(a.value)) or (isinstance(a, ast.NamedExpr) and is_attempt(a.value)):
             gs = path_guards_of(mod, a, loop)
-            other = [(g_, pol) for g_, pol in gs if "get_ident" not in norm(g_)]
+            other = [(g_, pol) for g_, pol in gs if not about_me(g_)]
             if other:
                 ctx.R.undecided("SLC-8", f"try_from is attempted only under `{norm(other[0][0])[:60]}`")
             elif not gs:
